@@ -36,6 +36,9 @@ type corsCacheStorageMiddleware struct {
 	tracer  trace.Tracer
 	mu      sync.RWMutex
 	entries map[string]cacheEntry
+	// generations counts the invalidations per bucket, so that a lookup that
+	// read the backend before a write does not store its result after it.
+	generations map[string]uint64
 }
 
 var _ storage.Storage = (*corsCacheStorageMiddleware)(nil)
@@ -51,6 +54,7 @@ func NewStorageMiddlewareWithTTL(innerStorage storage.Storage, ttl time.Duration
 		ttl:               ttl,
 		tracer:            otel.Tracer("internal/storage/middlewares/corscache"),
 		entries:           map[string]cacheEntry{},
+		generations:       map[string]uint64{},
 	}
 }
 
@@ -67,11 +71,12 @@ func (m *corsCacheStorageMiddleware) GetBucketCORSConfiguration(ctx context.Cont
 		return entry.config, entry.err
 	}
 
+	generation := m.generation(key)
 	config, err := m.Next.GetBucketCORSConfiguration(ctx, bucketName)
 	// Cache successful reads and the common "no CORS configured" miss. Transient
 	// errors are not cached so they can recover on the next request.
 	if err == nil || err == storage.ErrNoSuchCORSConfiguration {
-		m.store(key, config, err)
+		m.store(key, generation, config, err)
 	}
 	return config, err
 }
@@ -104,14 +109,25 @@ func (m *corsCacheStorageMiddleware) lookup(key string) (cacheEntry, bool) {
 	return entry, true
 }
 
-func (m *corsCacheStorageMiddleware) store(key string, config *storage.BucketCORSConfiguration, err error) {
+func (m *corsCacheStorageMiddleware) generation(key string) uint64 {
+	m.mu.RLock()
+	defer m.mu.RUnlock()
+	return m.generations[key]
+}
+
+// store caches a backend read unless the bucket's configuration was written
+// since the read started: the result may predate that write.
+func (m *corsCacheStorageMiddleware) store(key string, generation uint64, config *storage.BucketCORSConfiguration, err error) {
 	m.mu.Lock()
-	m.entries[key] = cacheEntry{config: config, err: err, expiresAt: time.Now().Add(m.ttl)}
+	if m.generations[key] == generation {
+		m.entries[key] = cacheEntry{config: config, err: err, expiresAt: time.Now().Add(m.ttl)}
+	}
 	m.mu.Unlock()
 }
 
 func (m *corsCacheStorageMiddleware) invalidate(key string) {
 	m.mu.Lock()
 	delete(m.entries, key)
+	m.generations[key]++
 	m.mu.Unlock()
 }
